@@ -4,7 +4,7 @@ import arrayprop
 
 def run(tier):
     return arrayprop.standard_run(
-        "C06", tier, profiles=["syncheavy", "ranges", "copy", "mixed", "ranges", "copy"], nquick=42, nthorough=400, steps=(22, 34),
+        "C06", tier, profiles=["syncheavy", "grammar", "ranges", "copy", "grammar", "mixed", "ranges", "copy"], nquick=48, nthorough=400, steps=(22, 34),
         rule="ParityValid (every all-synced stripe holds, in every level, the generator applied to the recorded blocks, parity "
              "files long enough) and MapSane (no position shared, every block mapped, positions increasing) are evaluated by "
              "TLC on the projection of the real array after every command of every history (independent content decoder, "
